@@ -25,6 +25,11 @@ pub enum PayMode {
     Complete,
 }
 
+thread_local! {
+    /// per-thread knob read by Proc::start: delay of automatic getinfo replies (slow lightningd at startup)
+    pub static GETINFO_DELAY_MS: std::cell::Cell<u64> = const { std::cell::Cell::new(0) };
+}
+
 pub struct Proc {
     child: tokio::process::Child,
     stdin: tokio::process::ChildStdin,
@@ -121,6 +126,7 @@ impl Proc {
             t0: Some(tokio::time::Instant::now()),
             auto_getinfo: u32::MAX,
             local_id: local_pubkey().to_string(),
+            getinfo_delay_ms: GETINFO_DELAY_MS.with(|d| d.get()),
         }));
         let mut tasks = vec![];
         tasks.push(tokio::spawn(serve(listener, shared.clone())));
@@ -506,10 +512,13 @@ pub struct HeightCase {
     pub start: u32,
     pub blocks: Vec<u32>,
     pub expiry_above: u32,
+    /// lightningd answers getinfo only after this many ms (startup must wait for it)
+    #[serde(default)]
+    pub getinfo_delay_ms: u64,
 }
 
 fn height_case() -> impl Strategy<Value = HeightCase> {
-    (100u32..5000, proptest::collection::vec(0u32..6000, 0..6), 40u32..3000).prop_map(|(start, blocks, expiry_above)| HeightCase { start, blocks, expiry_above })
+    (100u32..5000, proptest::collection::vec(0u32..6000, 0..6), 40u32..3000, prop_oneof![Just(0u64), Just(250u64)]).prop_map(|(start, blocks, expiry_above, getinfo_delay_ms)| HeightCase { start, blocks, expiry_above, getinfo_delay_ms })
 }
 
 fn run_height(c: &HeightCase) -> CaseReport {
@@ -527,16 +536,23 @@ fn run_height(c: &HeightCase) -> CaseReport {
     let scn = crate::props::c13::blank(vec![pay], vec![h], 1);
     let r = rt();
     let res: Result<(), String> = r.block_on(async {
-        let started = Proc::start(default_options(), None, PayMode::FailFast, c.start, &[]).await?;
-        let mut p = match started {
+        GETINFO_DELAY_MS.with(|d| d.set(c.getinfo_delay_ms));
+        let started = Proc::start(default_options(), None, PayMode::FailFast, c.start, &[]).await;
+        GETINFO_DELAY_MS.with(|d| d.set(0));
+        let mut p = match started? {
             Started::Running(p) => p,
             Started::Refused { stderr, .. } => return Err(format!("refused: {stderr}")),
         };
+        if c.getinfo_delay_ms > 0 && c.blocks.is_empty() {
+            // the HTLC follows the init reply at once: the startup height query must have completed by then
+        }
         for b in &c.blocks {
             p.send_block(*b).await;
         }
         // notifications are handled by spawned tasks: give them time before the HTLC
-        tokio::time::sleep(Duration::from_millis(150)).await;
+        if !c.blocks.is_empty() {
+            tokio::time::sleep(Duration::from_millis(150)).await;
+        }
         p.send_htlc(json!("x"), &scn.render(0)).await;
         if p.wait_reply(&json!("x"), 10_000).await.is_none() {
             if let Some(m) = p.panicked() {
